@@ -3,6 +3,8 @@ package checks
 import (
 	"bytes"
 	"fmt"
+	"runtime"
+	"sync"
 
 	"github.com/gregoryv/mq"
 
@@ -21,14 +23,81 @@ func init() { register(c04{}) }
 func (c04) ID() string    { return "C04" }
 func (c04) Level() string { return "exploration" }
 func (c04) Rule() string {
-	return "hostile byte strings (arbitrary bytes; valid header + random/plausible/mutated body for all 16 type nibbles; every prefix of valid frames, raw and re-framed; every length field raised/lowered/zeroed/maximised/overlong; every type nibble spliced onto every body; truncated and inconsistent repeated sections; properties written twice, the copy with the same, a zero-length or a zero value; one packet value reused for a frame with text in every string and then one with the same strings empty) are fed to ReadPacket and their bodies to UnmarshalBinary of the matching type (and of all 16 Go packet types for one input in eight) on zero, NewX() and reused receivers, under a panic guard and the result-pair invariant. distinct = hash(api, input bytes); non-trivial = the type's decoder was entered (complete body of non-zero length)"
+	return "hostile byte strings (arbitrary bytes; valid header + random/plausible/mutated body for all 16 type nibbles; every prefix of valid frames, raw and re-framed; every length field raised/lowered/zeroed/maximised/overlong; every type nibble spliced onto every body; truncated and inconsistent repeated sections; properties written twice, the copy with the same, a zero-length or a zero value; one packet value reused for a frame with text in every string and then one with the same strings empty); plus one case that makes the process old: 2^24+2^17 (thorough: 2^32+2^17) ReadPacket calls on valid frames in one process, on all CPUs are fed to ReadPacket and their bodies to UnmarshalBinary of the matching type (and of all 16 Go packet types for one input in eight) on zero, NewX() and reused receivers, under a panic guard and the result-pair invariant. distinct = hash(api, input bytes); non-trivial = the type's decoder was entered (complete body of non-zero length)"
 }
 func (c04) Assumptions() []string {
 	return []string{"readers obey the io.Reader contract", "a typed-nil pointer is not a packet"}
 }
-func (c04) Phases(env run.Env) []run.Phase { return hostilePhases(env) }
+func (c04) Phases(env run.Env) []run.Phase {
+	return append(hostilePhases(env), run.Phase{Name: "process-age", N: 1})
+}
+
+// c04ProcessAge makes one process old: more ReadPacket calls than a 24-bit
+// (quick) or a 32-bit (thorough) counter can hold, on all CPUs, every one of
+// them on a complete, valid frame. What a long-lived broker process meets
+// after weeks - a sequence number that wraps, a table that is full - shows
+// here as a panic or a refusal.
+func c04ProcessAge(c *run.Ctx) {
+	c.Concurrent(true)
+	target := uint64(1<<24 + 1<<17)
+	if c.Thorough {
+		target = 1<<32 + 1<<17
+	}
+	G := runtime.NumCPU()
+	old := runtime.GOMAXPROCS(G)
+	defer runtime.GOMAXPROCS(old)
+	frames := [][]byte{{0xc0, 0x00}, {0xd0, 0x00}, {0x40, 0x02, 0x00, 0x01}, {0xe0, 0x00}}
+	bad := make([]string, G)
+	var wg sync.WaitGroup
+	per := target/uint64(G) + 1
+	for g := 0; g < G; g++ {
+		wg.Add(1)
+		go func(g int) {
+			defer wg.Done()
+			var rd bytes.Reader
+			f := frames[g%len(frames)]
+			for i := uint64(0); i < per; i++ {
+				rd.Reset(f)
+				var p mq.Packet
+				var err error
+				func() {
+					defer func() {
+						if r := recover(); r != nil {
+							bad[g] = fmt.Sprintf("ReadPacket panicked on call %d of goroutine %d (about %d calls in the process): %v", i, g, i*uint64(G), r)
+						}
+					}()
+					p, err = mq.ReadPacket(&rd)
+				}()
+				if bad[g] != "" {
+					return
+				}
+				if p == nil || err != nil {
+					bad[g] = fmt.Sprintf("ReadPacket refused the valid frame % x on call %d of goroutine %d (about %d calls in the process): %v", f, i, g, i*uint64(G), err)
+					return
+				}
+				if i&0x3fff == 0 {
+					c.Tick()
+				}
+			}
+		}(g)
+	}
+	wg.Wait()
+	for _, b := range bad {
+		if b != "" {
+			c.Violation("C04/process-age", b, map[string]interface{}{"calls_planned": target})
+			break
+		}
+	}
+	c.Eval(int(target))
+	c.Distinct(run.Hash64("process-age"), true)
+	c.Count("process-age", fmt.Sprintf("ReadPacket-calls-in-one-process>=2^%d", map[bool]int{false: 24, true: 32}[c.Thorough]), 1)
+}
 
 func (c04) Run(c *run.Ctx, phase, idx int) {
+	if phase == hNumPhases {
+		c04ProcessAge(c)
+		return
+	}
 	n := 0
 	var reused [16]mq.Packet
 	hostileInputs(c.Env, phase, idx, func(kind string, in []byte) {
